@@ -66,6 +66,7 @@ type Engine struct {
 	denyPkgs       map[string]bool
 	verbose        bool
 	maxPaths       int
+	noMerge        bool
 }
 
 func (e *Engine) unwindFor(fn *ssa.Function) int {
@@ -114,6 +115,9 @@ func (in *Interp) decide(c *Term) bool {
 	if c.konst {
 		return c.cv == 1
 	}
+	if in.spec > 0 {
+		panic(specAbort{})
+	}
 	if in.noFork > 0 {
 		panic(engineErr("symbolic branch inside no-fork region (package init)"))
 	}
@@ -130,6 +134,9 @@ func (in *Interp) decide(c *Term) bool {
 		return d.B
 	}
 	in.res.NonTrivial = true
+	if profileOn && in.curFn != nil {
+		profileCount(in.curFn.String())
+	}
 	rt := in.S.CheckWith(c)
 	if rt == Unknown {
 		in.solverUnknown("branch feasibility")
@@ -181,6 +188,9 @@ func (in *Interp) choose(n int, what string) int {
 func (in *Interp) concretize(t *Term, what string) uint64 {
 	if t.konst {
 		return t.cv
+	}
+	if in.spec > 0 {
+		panic(specAbort{})
 	}
 	for n := 0; ; n++ {
 		if n > in.eng.concretizeMax() {
@@ -320,6 +330,16 @@ func (in *Interp) assume(c *Term, note string) {
 	}
 	if c.IsFalse() {
 		panic(&pathEnd{kind: "assume", msg: note})
+	}
+	if in.assumed == nil {
+		in.assumed = map[*Term]bool{}
+	}
+	if in.assumed[c] {
+		return
+	}
+	in.assumed[c] = true
+	if profileOn {
+		profileCount("assume:" + note)
 	}
 	if _, ok := in.nextDecision(); !ok || true {
 		// feasibility of an assumption is checked once per path
